@@ -105,16 +105,17 @@ DeclMatch(s) ==
     /\ sg = 1 => At(s, 1) \in Signs
     /\ LET r == SubSeq(s, sg + 1, Len(s))  n == Len(r) IN
        \/ r \in {<<"i", "n", "f">>, <<"i", "n", "f", "i", "n", "i", "t", "y">>, <<"n", "a", "n">>}
-       \/ \E a \in 0..n : \E dot \in BOOLEAN : \E f \in 0..n :
-            LET m == a + (IF dot THEN 1 + f ELSE 0) IN
-            /\ m <= n /\ a + f >= 1 /\ (~dot => f = 0)
+       \/ \E a \in 0..n :                          \* integer digits
             /\ AllDigitsIn(r, 1, a)
-            /\ dot => (At(r, a + 1) = "." /\ AllDigitsIn(r, a + 2, a + 1 + f))
-            /\ \/ m = n
-               \/ /\ At(r, m + 1) = "e"
-                  /\ \E es \in {0, 1} : /\ es = 1 => At(r, m + 2) \in Signs
-                                        /\ n - (m + 1 + es) >= 1
-                                        /\ AllDigitsIn(r, m + 2 + es, n)
+            /\ \E dot \in BOOLEAN : \E f \in (IF dot THEN 0..(n - a) ELSE {0}) :     \* fraction digits
+                 LET m == a + (IF dot THEN 1 + f ELSE 0) IN
+                 /\ m <= n /\ a + f >= 1
+                 /\ dot => (At(r, a + 1) = "." /\ AllDigitsIn(r, a + 2, a + 1 + f))
+                 /\ \/ m = n
+                    \/ /\ At(r, m + 1) = "e"
+                       /\ \E es \in {0, 1} : /\ es = 1 => At(r, m + 2) \in Signs
+                                             /\ n - (m + 1 + es) >= 1
+                                             /\ AllDigitsIn(r, m + 2 + es, n)
 
 ---------------------------------------------------------------------------
 (* Reference *)
@@ -231,18 +232,20 @@ SameObs(a, b) == IF a.acc /\ b.acc /\ a.kind = "nan" /\ b.kind = "nan" THEN TRUE
 Records == IF UseRecords THEN ndJsonDeserialize(IOEnv.RECORDS) ELSE <<>>
 
 \* enumeration families: every string over `alpha` up to `maxlen` symbols, in each of `modes`
-CoreA  == {"0", "1", "_", ".", "e", "+", "-", "sp"}
+CoreA  == {"0", "1", "_", ".", "e", "+", "-"}
+CoreSA == {"0", "1", "_", ".", "e", "+", "-", "sp"}
 WideA  == {"0", "1", "_", ".", "e", "+", "-", "sp", "gs", "i", "n", "f", "a", "nul", "x", "us", "u3", "ux"}
-WordsA == {"i", "n", "f", "a", "-", "gs", "us"}
+WordsA == {"i", "n", "f", "a", "gs", "us"}
+WordsSA == {"i", "n", "f", "a", "-", "sp", "gs", "us"}
 NonAA  == {"1", "_", ".", "e", "sp", "gs", "us", "u3"}
 Both == {"str", "bytes"}
 FamTable == [core5 |-> [alpha |-> CoreA, maxlen |-> 5, modes |-> {"str"}],
-             core6 |-> [alpha |-> CoreA, maxlen |-> 6, modes |-> {"str"}],
+             core6 |-> [alpha |-> CoreSA, maxlen |-> 6, modes |-> {"str"}],
              core7 |-> [alpha |-> CoreA, maxlen |-> 7, modes |-> {"str"}],
              wide3 |-> [alpha |-> WideA, maxlen |-> 3, modes |-> Both],
              wide4 |-> [alpha |-> WideA, maxlen |-> 4, modes |-> Both],
              words5 |-> [alpha |-> WordsA, maxlen |-> 5, modes |-> {"str"}],
-             words6 |-> [alpha |-> WordsA, maxlen |-> 6, modes |-> Both],
+             words6 |-> [alpha |-> WordsSA, maxlen |-> 6, modes |-> Both],
              nona4 |-> [alpha |-> NonAA, maxlen |-> 4, modes |-> Both],
              nona5 |-> [alpha |-> NonAA, maxlen |-> 5, modes |-> Both]]
 
@@ -271,20 +274,21 @@ InitRec == \E k \in 1..Len(Records) :
              /\ an = Analyse(mode, str)
 Init == InitEnum \/ InitRec
 
-Extend(c) == /\ fam # "rec" /\ Len(str) < FamTable[fam].maxlen /\ c \in FamTable[fam].alpha
+More == fam # "rec" /\ Len(str) < FamTable[fam].maxlen
+Extend(c) == /\ c \in FamTable[fam].alpha
              /\ str' = Append(str, c)
              /\ an' = Analyse(mode, str')
              /\ UNCHANGED <<fam, mode, rid>>
 
-AppendDigit      == \E c \in Digits : Extend(c)
-AppendUnderscore == Extend("_")
-AppendDot        == Extend(".")
-AppendExp        == Extend("e")
-AppendSign       == \E c \in Signs : Extend(c)
-AppendSpace      == \E c \in {"sp", "gs"} : Extend(c)
-AppendLetter     == \E c \in Letters : Extend(c)
-AppendNulOther   == \E c \in {"nul", "x"} : Extend(c)
-AppendNonAscii   == \E c \in NonAscii : Extend(c)
+AppendDigit      == More /\ \E c \in Digits : Extend(c)
+AppendUnderscore == More /\ Extend("_")
+AppendDot        == More /\ Extend(".")
+AppendExp        == More /\ Extend("e")
+AppendSign       == More /\ \E c \in Signs : Extend(c)
+AppendSpace      == More /\ \E c \in {"sp", "gs"} : Extend(c)
+AppendLetter     == More /\ \E c \in Letters : Extend(c)
+AppendNulOther   == More /\ \E c \in {"nul", "x"} : Extend(c)
+AppendNonAscii   == More /\ \E c \in NonAscii : Extend(c)
 
 Next == \/ AppendDigit \/ AppendUnderscore \/ AppendDot \/ AppendExp \/ AppendSign
         \/ AppendSpace \/ AppendLetter \/ AppendNulOther \/ AppendNonAscii
